@@ -17,7 +17,7 @@ fn badarg(line: &str, why: &str) -> CaseResult {
 pub fn exec4(prop: &str, op: &str, line: &str, args: &[SExp]) -> Option<CaseResult> {
     Some(match op {
         "parse_src" => op_parse_src(prop, line, args),
-        _ => return None,
+        _ => return crate::exec5::exec5(prop, op, line, args),
     })
 }
 
